@@ -1,4 +1,5 @@
 """unit json: serde_json::Value -> CelValue (both From impls): scalars convert to the same value a direct binding would give (C12, C01)"""
+HAS_LOOP_CONTRACTS = True
 from vgen.gen import Unit, A
 from . import common as C
 
@@ -16,9 +17,24 @@ impl Number {
     // without serde_json's arbitrary_precision feature every number has an f64 reading (assumed)
     #[verifier::external_body] pub fn as_f64(&self) -> (r: Option<f64>) ensures r == num_f64(*self), r is Some { unimplemented!() }
 }
-#[verifier::external_body] pub fn json_array_ref(val: &Vec<Value>) -> (r: CelValue) ensures r is List { unimplemented!() }
-#[verifier::external_body] pub fn json_object_ref(val: &JsonMap) -> (r: CelValue) ensures r is Map { unimplemented!() }
-#[verifier::external_body] pub fn json_object(val: JsonMap) -> (r: CelValue) ensures r is Map { unimplemented!() }
+impl JsonMap { pub uninterp spec fn view(&self) -> Map<String, Value>; }
+/// serde_json::Map::keys, materialized: every key exactly once, in the map's own order (assumed; no proof depends on the order)
+pub open spec fn keys_of(m: Map<String, Value>, ks: Seq<&String>) -> bool {
+    &&& forall|j: int| 0 <= j < ks.len() ==> m.contains_key(*(#[trigger] ks[j]))
+    &&& forall|i: int, j: int| 0 <= i < j < ks.len() ==> *(#[trigger] ks[i]) != *(#[trigger] ks[j])
+    &&& forall|k: String| #[trigger] m.contains_key(k) ==> exists|j: int| 0 <= j < ks.len() && *(#[trigger] ks[j]) == k
+}
+/// the recursive call: `<CelValue as From<&Value>>::from`, known by the contract it is verified against below
+#[verifier::external_body] pub fn cel_from_json_ref(v: &Value) -> (r: CelValue) ensures json_ok(*v, r) { unimplemented!() }
+#[verifier::external_body] pub fn json_keys<'a>(m: &'a JsonMap) -> (r: Vec<&'a String>) ensures keys_of(m@, r@) { unimplemented!() }
+/// `map[key]` (std::ops::Index): panics when the key is missing -- that is its precondition
+#[verifier::external_body] pub fn json_index<'a>(m: &'a JsonMap, k: &String) -> (r: &'a Value)
+    requires m@.contains_key(*k)
+    ensures *r == m@[*k] { unimplemented!() }
+/// `v.iter().map(f).collect()`: f applied to every element, in order (assumed std behaviour); the closure is the source's
+#[verifier::external_body] pub fn s_map_collect<F: Fn(&Value) -> CelValue>(v: &Vec<Value>, f: F) -> (r: Vec<CelValue>)
+    requires forall|x: &Value| call_requires(f, (x,))
+    ensures r@.len() == v@.len(), forall|i: int| 0 <= i < v@.len() ==> call_ensures(f, (&v@[i],), #[trigger] r@[i]) { unimplemented!() }
 
 impl vstd::std_specs::convert::FromSpecImpl<Value> for CelValue { open spec fn obeys_from_spec() -> bool { false } open spec fn from_spec(v: Value) -> Self { arbitrary() } }
 impl<'a> vstd::std_specs::convert::FromSpecImpl<&'a Value> for CelValue { open spec fn obeys_from_spec() -> bool { false } open spec fn from_spec(v: &'a Value) -> Self { arbitrary() } }
@@ -38,6 +54,17 @@ pub open spec fn json_scalar_ok(v: Value, r: CelValue) -> bool {
         Value::Object(_) => r is Map,
     }
 }
+/// a JSON value denotes the same CEL value a direct binding would; containers one level deep: an array becomes the list of its converted
+/// elements in order, an object the map with exactly its keys and the converted values (nested containers below that: list / map)
+pub open spec fn json_ok(v: Value, r: CelValue) -> bool {
+    match v {
+        Value::Array(a) => r is List && r->List_0@.len() == a@.len() && forall|i: int| 0 <= i < a@.len() ==> json_scalar_ok(a@[i], #[trigger] r->List_0@[i]),
+        Value::Object(m) => r is Map && (forall|k: String| #[trigger] r->Map_0@.contains_key(k) <==> m@.contains_key(k))
+            && forall|k: String| #[trigger] m@.contains_key(k) ==> json_scalar_ok(m@[k], r->Map_0@[k]),
+        _ => json_scalar_ok(v, r),
+    }
+}
+pub proof fn lemma_json_ok_is_scalar_ok(v: Value, r: CelValue) requires json_ok(v, r) ensures json_scalar_ok(v, r) {}
 '''
 DROP = 'iterator adapters (iter().map().collect(), keys()) over serde_json containers have no Verus support; the recursive conversion of arrays and objects is NOT verified'
 
@@ -53,13 +80,38 @@ def build():
     U.raw(C.STD_SPECS, 'assumed std specs')
     U.raw(C.AXIOMS, 'axioms')
     U.extract(C.CV, 'impl CelValue', fns=C.ambient(['from_int', 'from_uint', 'from_float', 'from_bool', 'from_string', 'from_null', 'from_list', 'from_map']), others='stub')
-    U.extract(C.CV, 'impl From<&Value> for CelValue', fns={'from': A(
-        ret='r', ensures=[('json_scalars_denote_the_same_value_as_a_direct_binding', 'json_scalar_ok(*value, r)')],
-        arm_replace={'Value::Array(val)': ('{ json_array_ref(val) }', DROP), 'Value::Object(val)': ('{ json_object_ref(val) }', DROP)},
-        props=('C12', 'C01'))})
-    U.extract(C.CV, 'impl From<Value> for CelValue', fns={'from': A(
-        ret='r', ensures=[('json_scalars_denote_the_same_value_as_a_direct_binding', 'json_scalar_ok(value, r)')],
-        arm_replace={'Value::Array(val)': ('{ json_array_ref(&val) }', DROP), 'Value::Object(val)': ('{ json_object(val) }', DROP)},
-        props=('C12', 'C01'))})
+    RW = 'R2m: serde_json container access -> materialized stand-in / trampoline with the assumed behaviour'
+
+    def conv(by_ref):
+        v = 'val' if by_ref else '&val'
+        me = '*value' if by_ref else 'value'
+        return A(
+            ret='r', attrs=['#[verifier::exec_allows_no_decreases_clause]'],
+            ensures=[('json_values_denote_the_same_value_as_a_direct_binding', f'json_ok({me}, r)')],
+            rewrites=[('val.iter().map(', f's_map_collect({v}, ', RW + ' (`v.iter().map(f).collect()`: f applied to every element in order; the closure is the source\'s)'),
+                      (').collect()', ')', 'the `.collect()` of the same chain'),
+                      ('CelValue::from(', 'cel_from_json_ref(', 'R1: the recursive call goes through the trait impl `From<&Value> for CelValue`, whose postcondition Verus does not propagate at a `From::from` call site -> trampoline carrying exactly the contract that impl is verified against in this unit'),
+                      ('val.keys()', f'json_keys({v})', RW + ' (every key once)'),
+                      ('&val[key]', f'json_index({v}, key)', RW + ' (Index panics on a missing key: precondition)')],
+            closures={0: dict(types=['&Value'], ret='res: CelValue', ensures=[('converts_the_element', 'json_ok(*x, res)')])},
+            arm_begin={'Value::Object(val)': 'let ghost jm = val@;'},
+            loops={0: dict(header='for key in val.keys()', ghost='it', invariant=[
+                ('every_key_once', 'jm == val@ && keys_of(jm, it.seq())'),
+                ('only_keys_seen_so_far', 'forall|q: String| #[trigger] map@.contains_key(q) ==> exists|j: int| 0 <= j < it.index@ && *(#[trigger] it.seq()[j]) == q'),
+                ('keys_seen_so_far_with_their_converted_values', 'forall|j: int| 0 <= j < it.index@ ==> map@.contains_key(*(#[trigger] it.seq()[j])) && json_scalar_ok(jm[*it.seq()[j]], map@[*it.seq()[j]])')],
+                pre='let ghost i0 = it.index@ as int; let ghost m0 = map@; proof { assert(key == it.seq()[i0]); assert(forall|j: int| 0 <= j < i0 ==> *(#[trigger] it.seq()[j]) != *it.seq()[i0]); }',
+                post='''proof {
+    assert(map@.contains_key(*key));
+    lemma_json_ok_is_scalar_ok(jm[*key], map@[*key]);
+    assert forall|j: int| 0 <= j < i0 + 1 implies map@.contains_key(*(#[trigger] it.seq()[j])) && json_scalar_ok(jm[*it.seq()[j]], map@[*it.seq()[j]]) by {
+        if j < i0 { assert(*it.seq()[j] != *key); assert(m0.contains_key(*it.seq()[j])); }
+    }
+    assert forall|q: String| #[trigger] map@.contains_key(q) implies exists|j: int| 0 <= j < i0 + 1 && *(#[trigger] it.seq()[j]) == q by {
+        if m0.contains_key(q) { let j = choose|j: int| 0 <= j < i0 && *(#[trigger] it.seq()[j]) == q; assert(*it.seq()[j] == q); } else { assert(q == *key); assert(*it.seq()[i0] == q); }
+    }
+}''')},
+            props=('C12', 'C01'))
+    U.extract(C.CV, 'impl From<&Value> for CelValue', fns={'from': conv(True)})
+    U.extract(C.CV, 'impl From<Value> for CelValue', fns={'from': conv(False)})
     U.raw(C.FOOTER, 'footer')
     return U
